@@ -23,6 +23,7 @@ SeqToSet(s) == {s[i] : i \in DOMAIN s}
 IsWriteOp(op) == op.op \in {"put", "pou", "del"}
 IsReadOp(op) == op.op \in {"get", "mget"}
 ReadKeys(op) == IF op.op = "get" THEN {op.k} ELSE SeqToSet(op.ks)
+ReadKeySeq(op) == IF op.op = "get" THEN <<op.k>> ELSE op.ks
 
 NoW == [opid |-> 0, actor |-> "", kind |-> "none", k |-> -1, v |-> -1, alone |-> FALSE, applied |-> FALSE,
         inplace |-> FALSE, dl |-> NoExp, ack |-> 0, returned |-> FALSE, expw |-> -1, tgt |-> 0, pd |-> FALSE]
@@ -216,8 +217,8 @@ GhostNext(G, S, a, site, inp, S2, o) ==
                             \/ (site = "T_UpdRemove" /\ S.store[L.op.k].exp # L.newexp)
              THEN [G10 EXCEPT !.stale = With(@, L.id, "D14")] ELSE G10
       \* the facts at the instant of a key lookup (the read itself is atomic)
-      G12 == IF site = "C_Get" /\ IsCaller(a) /\ a \in DOMAIN G11.obs /\ L.keys # <<>>
-             THEN LET k == Head(L.keys)
+      G12 == IF site = "C_Get" /\ IsCaller(a) /\ a \in DOMAIN G11.obs /\ Len(G11.obs[a]) < Len(ReadKeySeq(o.op))
+             THEN LET k == ReadKeySeq(o.op)[Len(G11.obs[a]) + 1]   \* (the position comes from the observed lookups, not from the model's locals)
                       pres == Present(S, k)
                       e == IF pres THEN S.store[k] ELSE [val |-> NoVal, id |-> 0, exp |-> NoExp, soft |-> FALSE]
                       x == Get(Get(G.rd3, a, EmptyFn), k, [ok |-> FALSE, val |-> NoVal, dl |-> NoExp, src |-> "none"])
@@ -238,9 +239,9 @@ GhostNext(G, S, a, site, inp, S2, o) ==
 
 \* the lookup facts of reader a including the lookup made in the current C_Get step
 GhostObs(G, S, a) ==
-  LET L == S.lc[a] IN
-  IF L.keys = <<>> \/ a \notin DOMAIN G.obs THEN Get(G.obs, a, <<>>)
-  ELSE LET k == Head(L.keys)
+  LET L == S.lc[a] ks == ReadKeySeq(L.op) IN
+  IF a \notin DOMAIN G.obs \/ Len(G.obs[a]) >= Len(ks) THEN Get(G.obs, a, <<>>)
+  ELSE LET k == ks[Len(G.obs[a]) + 1]
            pres == Present(S, k)
            e == IF pres THEN S.store[k] ELSE [val |-> NoVal, id |-> 0, exp |-> NoExp, soft |-> FALSE]
            x == Get(Get(G.rd3, a, EmptyFn), k, [ok |-> FALSE, val |-> NoVal, dl |-> NoExp, src |-> "none"])
